@@ -830,7 +830,9 @@ int vorbis_synthesis_blockin(vorbis_dsp_state *v,vorbis_block *vb){
     if(v->pcm_returned==-1){
       v->pcm_returned=thisCenter;
       v->pcm_current=thisCenter;
+      b->lapped=1; /* nothing in front of this block to close up to */
     }else{
+      b->lapped=0;
       v->pcm_returned=prevCenter;
       v->pcm_current=prevCenter+
         ((ci->blocksizes[v->lW]/4+
@@ -968,6 +970,7 @@ int vorbis_synthesis_read(vorbis_dsp_state *v,int n){
 int vorbis_synthesis_lapout(vorbis_dsp_state *v,float ***pcm){
   vorbis_info *vi=v->vi;
   codec_setup_info *ci=vi->codec_setup;
+  private_state *b=v->backend_state;
   int hs=ci->halfrate_flag;
 
   int n=ci->blocksizes[v->W]>>(hs+1);
@@ -1004,8 +1007,11 @@ int vorbis_synthesis_lapout(vorbis_dsp_state *v,float ***pcm){
     v->centerW=0;
   }
 
-  /* solidify buffer into contiguous space */
-  if((v->lW^v->W)==1){
+  /* solidify buffer into contiguous space; only once per block, a
+     second call must find the buffer as the first one left it */
+  if(b->lapped){
+    /* already contiguous */
+  }else if((v->lW^v->W)==1){
     /* long/short or short/long */
     for(j=0;j<vi->channels;j++){
       float *s=v->pcm[j];
@@ -1028,6 +1034,7 @@ int vorbis_synthesis_lapout(vorbis_dsp_state *v,float ***pcm){
       v->pcm_current+=n1-n0;
     }
   }
+  b->lapped=1;
 
   if(pcm){
     int i;
